@@ -149,6 +149,15 @@ func c01Case(c fileCase, viol func(sig, detail string), r *core.Run) {
 					viol("stream-after-rewind "+how+" "+c.Writer, fmt.Sprintf("%s buf=%d: second pass err=%v got %s want %s", c, b, err, clip(got, 24), clip(content, 24)))
 					return
 				}
+				// buffers of changing sizes, empty ones among them (an
+				// empty-buffer Read is legal and moves nothing)
+				if rs3, err := lb.AsLargeBytes(); err == nil {
+					got, err = readAllMixed(rs3, []int{b, 0, 1, 0, 0, b + 2}, 8*len(content)+64)
+					if err != nil || !bytes.Equal(got, content) {
+						viol("stream-mixed-buffers "+how+" "+c.Writer, fmt.Sprintf("%s buffer sizes [%d 0 1 0 0 %d]…: err=%v got %d bytes %s want %d", c, b, b+2, err, len(got), clip(got, 24), len(content)))
+						return
+					}
+				}
 				// sniff a prefix, ask for the length, rewind, stream
 				rs2, err := lb.AsLargeBytes()
 				if err != nil {
